@@ -273,7 +273,8 @@ def main(argv=None):
         "wall_s": round(wall, 2),
         "violations": len(seen_sig),
     }
-    evdir = VERIF / "evidence"
+    # runs against another checkout (mutation demos) must not overwrite the evidence about /repo
+    evdir = VERIF / ("evidence" if str(core.REPO) == "/repo" else "evidence_mut")
     evdir.mkdir(exist_ok=True)
     evp = evdir / f"{prop}.json"
     evp.write_text(json.dumps(core.jsonable(ev), indent=1))
